@@ -7,6 +7,7 @@ mod coverage;
 mod front;
 mod graph;
 mod lexer;
+mod session;
 mod sources;
 
 use crate::core::{Ann, Naming};
@@ -52,6 +53,8 @@ fn main() {
         | "generativity" => sources::generativity(&args[2]),
         | "replay-sources" => sources::replay_sources(&args[2], &args[3]),
         | "replay-split" => core::replay_split(&args[2], &args[3]),
+        | "record-session" => session::record_session(&args[2], args[3].parse().unwrap(), args[4].parse().unwrap()),
+        | "replay-session" => session::replay_session(&args[2], &args[3]),
         | "corpus-run" => {
             // zyconf corpus-run OUT MUTANTS_PER_FILE MAX_STEPS
             corpus::corpus_run(&args[2], args[3].parse().unwrap(), args[4].parse().unwrap());
